@@ -519,7 +519,8 @@ fn short_history(rng: &mut Rng, ctx: &mut Ctx) -> Result<(), (Bad, Vec<String>)>
                         let dflt = if rng.bool() { Some(ns.clone()) } else { None };
                         let prefixed = rng.bool() && !pfx.is_empty() && !pfx.contains(':');
                         let full = if prefixed { format!("{}:{}", pfx, s) } else { s.clone() };
-                        if s.contains(':') {
+                        // (whether a degenerate qualified name - empty local part, stray colon - is refused is left open)
+                        if s.contains(':') || s.is_empty() {
                             continue;
                         }
                         log.push(format!("CreateName::parse_full_name({:?}, default -> {:?}, {:?} -> \"urn:A\")", full, dflt, pfx));
@@ -737,7 +738,7 @@ fn short_history(rng: &mut Rng, ctx: &mut Ctx) -> Result<(), (Bad, Vec<String>)>
                 use std::hash::{Hash, Hasher};
                 let ns = hot[rng.below(hot.len())].to_string();
                 let pfx = hot[rng.below(hot.len())].to_string();
-                if s.contains(':') || pfx.contains(':') {
+                if s.contains(':') || pfx.contains(':') || s.is_empty() {
                     continue;
                 }
                 log.push(format!("OwnedName::name / namespaced / prefixed / parse_full_name for ({:?}, {:?}, {:?}); ==, Hash; NameId::from", s, ns, pfx));
